@@ -8,12 +8,15 @@ Import ListNotations.
 Local Open Scope string_scope.
 Local Open Scope list_scope.
 
-Definition lists3 := (list value * list value * list value)%type.
+Definition lists3 := (list value * list value * list value * list value)%type.
 Definition lists_out (o : outcome) : lists3 :=
-  match o with Parsed a | ArgError a => (defs a, paths a, files a) | Exit => ([], [], []) end.
+  match o with Parsed a | ArgError a => (defs a, paths a, syspaths a, files a) | Exit => ([], [], [], []) end.
 Definition consl (d : dest) (v : value) (l : lists3) : lists3 :=
-  match l with (a, b, c) =>
-    match d with DDef => (v :: a, b, c) | DPath => (a, v :: b, c) | DFile => (a, b, v :: c) | DIgn => l end
+  match l with (a, b, s, c) =>
+    match d with
+    | DDef => (v :: a, b, s, c) | DPath => (a, v :: b, s, c) | DSys => (a, b, v :: s, c) | DFile => (a, b, s, v :: c)
+    | DIgn => l
+    end
   end.
 
 Lemma lists_out_push d v o : o <> Exit -> lists_out (push d v o) = consl d v (lists_out o).
@@ -22,20 +25,20 @@ Lemma lists_out_push_extra s o : lists_out (push_extra s o) = lists_out o.
 Proof. destruct o as [a|a|]; try destruct a; reflexivity. Qed.
 
 Lemma consl_add k v L X :
-  consl (odest (opt_of k)) (Some v) (app3v (some3 L) X) = app3v (some3 (add k v L)) X.
-Proof. destruct L as [[d p] f], X as [[d' p'] f'], k; reflexivity. Qed.
-Lemma app3v_nil X : app3v (some3 ([], [], [])) X = X.
-Proof. destruct X as [[d p] f]. reflexivity. Qed.
+  consl (odest (opt_of k)) (Some v) (app4v (some4 L) X) = app4v (some4 (add k v L)) X.
+Proof. destruct L as [[[d p] s] f], X as [[[d' p'] s'] f'], k; reflexivity. Qed.
+Lemma app3v_nil X : app4v (some4 ([], [], [], [])) X = X.
+Proof. destruct X as [[[d p] s] f]. reflexivity. Qed.
 
 Definition goodk (argv : list string) (toks : list (string * cls)) : Prop :=
   forall k pos pend, pend_ok pend ->
   exists pos' pend', pend_ok pend' /\
-    lists_out (run pos pend (toks ++ k)) = app3v (some3 (scan None argv)) (lists_out (run pos' pend' k)).
+    lists_out (run pos pend (toks ++ k)) = app4v (some4 (scan None argv)) (lists_out (run pos' pend' k)).
 
 Lemma goodk_flag_value t o v r toks :
   parse_optional om t = inr (CO (Some o) None) -> v <> "--" ->
-  (forall L X, consl (odest o) (Some v) (app3v (some3 L) X)
-               = app3v (some3 (match recognise t with Some (k, _) => add k v L | None => L end)) X) ->
+  (forall L X, consl (odest o) (Some v) (app4v (some4 L) X)
+               = app4v (some4 (match recognise t with Some (k, _) => add k v L | None => L end)) X) ->
   scan None (t :: v :: r) = match recognise t with Some (k, _) => add k v (scan None r) | None => scan None r end ->
   goodk r toks -> goodk (t :: v :: r) ((t, CO (Some o) None) :: (v, CA) :: toks).
 Proof.
@@ -82,9 +85,9 @@ Proof.
     + exists (("-I", CO (Some oP) None) :: (v, CA) :: toks).
       split; [intros l2 toks2 H2; cbn [app]; apply classify_cons; auto; now apply Hcv|].
       apply goodk_flag_value; auto. intros L X. apply (consl_add KP).
-    + exists (("-isystem", CO (Some oP) None) :: (v, CA) :: toks).
+    + exists (("-isystem", CO (Some oS) None) :: (v, CA) :: toks).
       split; [intros l2 toks2 H2; cbn [app]; apply classify_cons; auto; now apply Hcv|].
-      apply goodk_flag_value; auto. intros L X. apply (consl_add KP).
+      apply goodk_flag_value; auto. intros L X. apply (consl_add KS).
     + exists (("-include", CO (Some oF) None) :: (v, CA) :: toks).
       split; [intros l2 toks2 H2; cbn [app]; apply classify_cons; auto; now apply Hcv|].
       apply goodk_flag_value; auto. intros L X. apply (consl_add KF).
@@ -92,7 +95,7 @@ Proof.
       split; [intros l2 toks2 H2; cbn [app]; apply classify_cons; auto; now apply Hcv|].
       apply goodk_flag_value; auto.
       * intros L X. change (recognise "-o") with (@None (kind * string)). cbv iota.
-        destruct (app3v (some3 L) X) as [[a b] c]. reflexivity.
+        destruct (app4v (some4 L) X) as [[[a b] s] c]. reflexivity.
       * change (scan None ("-o" :: v :: r)) with (scan None (v :: r)). cbn [scan]. now rewrite Hrv.
   - destruct (IHn r) as (toks & Hc & Hg); [cbn in Hlen; lia|assumption|].
     pose proof (po_safe t Ht) as Hspec. unfold tok_spec in Hspec.
@@ -136,7 +139,7 @@ Proof.
 Qed.
 
 Lemma lists_of_out argv :
-  lists_of (parse_args argv) = Some (lists_out (parse_known_args c11_options c11_error_raises argv)).
+  lists4_of (parse_args argv) = Some (lists_out (parse_known_args c11_options c11_error_raises argv)).
 Proof.
   unfold parse_args, parse_args_with. rewrite caught_eq, raises_eq.
   destruct (parse_known_args c11_options true argv) as [a|a|] eqn:E; try reflexivity.
@@ -147,7 +150,7 @@ Qed.
 (* everything in a safe prefix is kept, in order, whatever follows *)
 Theorem safe_prefix_kept l1 l2 :
   safe l1 = true -> ~ In "-i" l2 ->
-  exists rest, lists_of (parse_args (l1 ++ l2)) = Some (app3v (some3 (scan_S l1)) rest).
+  exists rest, lists4_of (parse_args (l1 ++ l2)) = Some (app4v (some4 (scan4_S l1)) rest).
 Proof.
   intros Hs Hn.
   destruct (run_safe_k (length l1) l1 (le_n _) Hs) as (toks & Hc & Hg).
@@ -214,8 +217,8 @@ Qed.
 (* everything in a safe prefix is kept, in order, and the rest contributes what it contributes on its own *)
 Theorem safe_prefix_compose l1 l2 :
   safe l1 = true -> ~ In "-i" l2 ->
-  exists rest, lists_of (parse_args l2) = Some rest /\
-               lists_of (parse_args (l1 ++ l2)) = Some (app3v (some3 (scan_S l1)) rest).
+  exists rest, lists4_of (parse_args l2) = Some rest /\
+               lists4_of (parse_args (l1 ++ l2)) = Some (app4v (some4 (scan4_S l1)) rest).
 Proof.
   intros Hs Hn.
   destruct (run_safe_k (length l1) l1 (le_n _) Hs) as (toks & Hc & Hg).
@@ -239,12 +242,19 @@ Proof.
   apply (H (length l) l (le_n _)).
 Qed.
 
+(* the configuration's lists are a function of the per-destination lists *)
+Lemma lists_of_flat r r' : lists4_of r = lists4_of r' -> lists_of r = lists_of r'.
+Proof.
+  destruct r as [a|a| |], r' as [a'|a'| |]; cbn; intros H; try discriminate; try reflexivity;
+    injection H as -> -> -> ->; reflexivity.
+Qed.
+
 (* a catalogue entry after a safe prefix is neutral whatever follows *)
 Theorem neutral_any_tail l1 e l2 :
   safe l1 = true -> In e c11_catalogue -> ~ In "-i" l2 ->
   lists_of (parse_args (l1 ++ e ++ l2)) = lists_of (parse_args (l1 ++ l2)).
 Proof.
-  intros Hs Hin Hn.
+  intros Hs Hin Hn. apply lists_of_flat.
   pose proof catalogue_ok as Hcat. rewrite forallb_forall in Hcat. specialize (Hcat e Hin).
   unfold entry_ok in Hcat. apply andb_prop in Hcat. destruct Hcat as [Hcat Hu].
   apply andb_prop in Hcat. destruct Hcat as [Hse Hce].
@@ -256,6 +266,6 @@ Proof.
   rewrite Hr in Hr'. injection Hr' as <-.
   do 3 f_equal.
   rewrite <- (app_nil_r e) at 1. rewrite <- (app_nil_r l1) at 2.
-  apply scan_neutral; [|assumption].
+  apply scan4_neutral; [|assumption].
   apply closed_safe_complete; [now apply safe_closed|assumption].
 Qed.
